@@ -39,7 +39,7 @@ All twenty properties are claimed in `MANIFEST.json`; `not_applicable` is empty.
 | C08 | PoseOps | `backends_agree`, `convert_eq`, `missing_all_dims_iff_conf_zero`, `getPoints/selectFrames/sliceStep_agree`, `matmul_point_view` | torch / tf primitives |
 | C09 | PoseOps, Spatial, Interp, Normalize | `visEq_view`, `zeroFilled_exact`, `…_ni` for nine operations, `run_ni`, `program_noninterference`; `Props/C09Norm`: `normalize_ni`, `normalizeDistribution_ni`, `runN_ni`; `Props/C09Repr`: `rep2_ni`, `rep3_ni`, `pointsRepRows_ni`, `forward_ni` (the assembled representation); `Props/C09Ser`: `serialise_ni` (write → read); `interpolateWith_ni` (every interpolation kind) | 3-D normaliser (K4): two-run execution |
 | C10 | Tensor, Masked | `run_refines`, `shapes_identical`, `elementwise_valid_iff`, `strict_sum_valid_iff`, `mean_valid_iff`, `zero_filled_exact`, `run_append_only`, `run_keeps_register` (no operation changes an earlier register) | — |
-| C11 | Select | `select_component(_all)`, `pointIndex_go`, `remove_eq_select_complement`, `remove_points_eq_select`, `select_limbs_names`; helpers (`Model/Helpers`): `hidePoints_other`, `hidePoints_hidden`, `mem_namedIndexes`, `correctWrist_other`, `correctWrist_at`; values: `getPoints_cell`, `getComponents_values`, `removeComponents_values` | the name tables of the known formats |
+| C11 | Select | `select_component(_all)`, `pointIndex_go`, `remove_eq_select_complement`, `remove_points_eq_select`, `select_limbs_names`; helpers (`Model/Helpers`): `hidePoints_other`, `hidePoints_hidden`, `mem_namedIndexes`, `correctWrist_other`, `correctWrist_at`, `reduce_holistic` as the selection its two name tables describe (`Model/Helpers.reduceHolistic`): `isInfix_iff`, `reduceKeep_iff`, `reduceKeep_sublist`, `reduceHolistic_is_selection`, `reduceHolistic_no_body`; values: `getPoints_cell`, `getComponents_values`, `removeComponents_values` | the name tables of the known formats |
 | C12 | PoseSeq (+ all body models) | `step_inv`, `run_inv`, `wf_pointwise`, `fits_of_inv`, `serialisable`, `normalize_is_transform`, `normalizeDistribution_is_transform`, `unnormalizeDistribution_is_transform`, `normalize_wf` …, `interpolate_any_kind_wf` | dropouts' draws, torch / tf bodies |
 | C13 | Normalize, Normalize3D | `normalize_post`, `normalize_similarity_invariant`, `distribution_mean_zero`, `distribution_std_one`, `unnormalize_inverse`, `normalizeDistribution_post`, `normalizeDistribution_post_all`, `line_p1_at_origin`, `plane_at_z0_partial`, `line_on_negative_y`, `normalize3D_translation_invariant`, `normalize3D_scale_invariant`, `normalize3DBody_independent`, `not_rotation_invariant` | float rounding; `arctan2` / `from_euler` by algebraic meaning; body-level distribution theorem for axes (0,1,2) |
 | C14 | Interp | `linear_affine_exact`, `linear_identity_at_observations`, `linear_within_neighbours`, `interp_frames_fps`, `linspace_ends`, `track_zero_outside_window`, `before_window`; every kind (interpolant = parameter): `interp_frames_fps_any_kind`, `track_zero_outside_window_any_kind`, `track_identity_at_observations` | that scipy's quadratic / cubic interpolants reproduce samples and affine data |
@@ -107,6 +107,7 @@ again if it returns — verified for F8 by reverting the commit in the working t
 | K2 | C13 | clause "output changes when the input is rotated" | `rotate_to_normal` uses the non-unit basis `y = x₀ × z`, `x = z × y`; orthonormalising changes every output incl. the committed golden fixtures. Proved false of the model too (`not_rotation_invariant`, exact witness −1/15 vs −1/25) |
 | K3 | C13 | clause "plane points not at z = 0" ∧ `line.p1 ∉ plane` | the two postconditions cannot both hold then; which one wins is a design decision. `plane_at_z0_partial` proves the clause under `line.p1 ∈ plane` |
 | K4 | C09 | `op = normalize_3d` ∧ the two runs differ only in frames / people whose plane or line reference point is missing | masking such frames changes the missing pattern while `normalize_component_3d` keeps the confidences: the consistent repair touches the callers |
+| K5 | C08 | missing patterns differ only at points whose stored confidence is a binary32 subnormal, tensorflow body | tensorflow's CPU kernels flush subnormals to zero, so `confidence != 0` is False for 1.4e-45 on that backend only; the comparison lives in the runtime, a bit-pattern test would cover float32 only and leave every later tensorflow operation on the value flushed |
 
 Every one of them is exercised by a fixed witness case on every run, so the `KNOWN-FINDING:` line is printed on the unchanged tree; a
 violation of the same property with another signature (e.g. `normalize_3d` differences in frames whose reference points *are* observed, or plane
